@@ -55,6 +55,8 @@ class Gen:
         self.n += 1
         node = {'id': nid, 'mode': self.rng.choice(self.p['modes']), 'params': [], 'kind': 'plain',
                 'plan': {}}
+        if node['mode'] in ('inline', 'process', 'thread_tag', 'async_tagged') and self.rng.random() < 0.15:
+            node['tag_style'] = 'str'       # tags spelled as plain strings
         node.update(kw)
         self.nodes[nid] = node
         self.flags[nid] = set()
@@ -79,6 +81,8 @@ class Gen:
                      'exceptions': rng.choice([None, ['E1'], ['E1', 'E2']]),
                      'use_default': rng.random() < 0.3}
             node['retry'] = retry
+            if retry['use_default'] and rng.random() < 0.25:
+                node['plan']['default_none'] = True      # get_default returns None: a value, not "no default"
         if will_fail:
             style = rng.random()
             exc = rng.choice(['E1', 'E1', 'E2', 'EOther', 'E1Sub', 'EFalsy', 'ERt', 'EKey'])
@@ -420,7 +424,7 @@ class Gen:
         odd = reuse is None and rng.random() < self.p.get('p_odd_labels', 0.12)
         if odd:
             # declared labels need not be truthy strings: '', 0, 1 and strings that look like other values
-            labels = rng.sample(['', 0, 1, '1', 'None', '0'], ncases)
+            labels = rng.sample(['', 0, 1, '1', 'None', '0', None], ncases)      # None is a legitimate declared label too
         if reuse is not None:
             # a second SwitchCase mark on the same switch node: it must have a case for every label
             labels = [l for l in self.nodes[reuse]['plan']['labels'] if l != 'ZZZ']
@@ -448,7 +452,7 @@ class Gen:
             dn['plan']['labels'] = list(labels)
         if reuse is None and self.hostile == 'switch_unknown_label' and 'switch_unknown_label' not in self.injected:
             unknown = rng.choice(['ZZZ', None, None, 0, ''])      # a label no case declares (incl. None / falsy)
-            alike = {'1': 1, 1: '1', 'None': None, '0': 0, 0: '0'}
+            alike = {'1': 1, 1: '1', 'None': None, None: 'None', '0': 0, 0: '0'}
             twins = [alike[l] for l in labels if l in alike and alike[l] not in labels]
             if twins:
                 unknown = rng.choice(twins)      # equal to a declared label only after str() / int()
@@ -776,6 +780,9 @@ def add_generics(prog, rng, p=0.12):
             n['generic_of'] = base_id
             if rng.random() < 0.6:
                 n['dep_default'] = True      # build_node(dependencies_default=...): an extra keyword for the body
+            if n.get('mode') not in ('async', 'async_tagged') and rng.random() < 0.4:
+                n['attrs_tags'] = True       # build_node(attrs={'tags': ...}): the derived node sets the execution mode
+                base['attrs_tags_base'] = True
             prog['order'].insert(prog['order'].index(nid), base_id)
     return prog
 
